@@ -114,6 +114,11 @@ class Node(ElementBase):
             q = link_up.get_flow(engine)[-1]
             if q_o is not None:
                 q += q_o  # type: ignore[assignment,operator]
+            # with multiple exiting links, the flow is split according to the turnrates
+            exiting = net.out_links(self)
+            if len(exiting) > 1:
+                betas = engine.vcat(*(dlink.turnrate for _, _, dlink in exiting))
+                q = engine.nodes.get_upstream_flow(engine.vcat(q), link.turnrate, betas)
         else:
             v_last = []
             q_last = []
